@@ -4,6 +4,7 @@
   `hooklog` (the PipeEventHook calls in order).
 -/
 import Model.CoreLemmas
+import Model.AllocTotal
 namespace Props.C13
 open Model Model.Core
 
@@ -13,6 +14,19 @@ theorem ids_fresh (used : List Nat) (fuel next id next' : Nat) (h : allocScan us
     id ≠ 0 ∧ id < 2 ^ 31 ∧ id ∉ used := by
   have := allocScan_fresh used fuel next id next' h
   exact ⟨this.1, by simpa using this.2.1, this.2.2⟩
+
+/-- … and it always returns one: the real allocator loops until it finds a free id; that loop terminates within
+    |ids in use| + 2 iterations for every counter value, because consecutive counter values give distinct candidates and
+    only zero and the ids in use are refused (so the fuel the model is run with never runs out, and the `none` branch of
+    the model — which the code does not have — is unreachable while fewer than 2^31 − 4 pipes are open) -/
+theorem ids_always_found (used : List Nat) (next : Nat) (h : used.length + 4 ≤ 0x80000000) :
+    ∃ id next', allocScan used (used.length + 4) next = some (id, next') ∧ id ≠ 0 ∧ id < 2 ^ 31 ∧ id ∉ used := by
+  have := allocScan_total' used next h
+  cases hr : allocScan used (used.length + 4) next with
+  | none => rw [hr] at this; simp at this
+  | some r => exact ⟨r.1, r.2, rfl, ids_fresh used _ next r.1 r.2 hr⟩
+
+example : (allocScan [1, 2, 3] 7 0x80000000) = some (4, 0x80000005) := by decide
 
 /-- in every reachable state — any sequence of connects on listener and dialer sides, peer drops, application closes,
     hook closes during Attaching, protocol refusals, socket close, timer firings — the hook has seen, for every pipe,
